@@ -39,6 +39,11 @@ def run_case(case, tier):
         desc = {"file": case["file"]}
     else:
         recs, desc = sources.chimera(rng)
+        if rng.random() < 0.15:
+            # several models / alternate locations of a multi-chain structure
+            from .. import multiconf
+            recs, d2 = multiconf.build(rng, base=recs)
+            desc["multiconf"] = d2.get("mode")
     if rng.random() < 0.3:
         recs = [r for r in recs if r.raw is None or r.tag != "TER   " or rng.random() < 0.5]
     ids = sorted({r.chain for r in recs if r.raw is None})
@@ -75,6 +80,8 @@ def run_case(case, tier):
     classes.append("chains:%d" % min(len(ids), 6))
     if desc.get("hetero"):
         classes.append("hetero-with-chain-id")
+    if desc.get("multiconf"):
+        classes.append("multi-conformation")
     if ra.exc:
         classes.append("raised:" + ra.exc_type)
     nontrivial = len(ids) >= 2 and set(subset) & set(ids) != set(ids) and ntit >= 2
